@@ -91,6 +91,16 @@ Theorem C17_pending_held : forall c es s n,
 Proof. exact pending_held. Qed.
 Print Assumptions C17_pending_held.
 
+(* the predicates the model runner evaluates on the observed requests are these Coq definitions, extracted:
+   resub_ok decides is_resub_of; fifo_ok is sound for "a subsequence of the commands in issue order" *)
+Theorem C17_resub_ok_reflects : forall bs r, resub_ok bs r = true <-> is_resub_of bs r.
+Proof. exact resub_ok_iff. Qed.
+Print Assumptions C17_resub_ok_reflects.
+
+Theorem C17_fifo_ok_sound : forall issued seen, fifo_ok seen issued = true -> Subseq seen issued.
+Proof. exact fifo_ok_sound. Qed.
+Print Assumptions C17_fifo_ok_sound.
+
 (* ---- non-vacuity: accepted traces that exercise the hypotheses *)
 
 Definition ta : topic := [x61].
